@@ -113,16 +113,27 @@ pub fn run_chain<S: Settings>(sc: &J) -> Result<(), String> {
         Some(a) => a.iter().map(|x| x.as_f64().unwrap()).collect(),
         None => vec![0.1; dim],
     };
-    let r = std::panic::catch_unwind(std::panic::AssertUnwindSafe(|| chain.set_position(&init)));
-    match r {
-        Ok(Ok(())) => emit(json!({"ev": "set_position", "res": "ok"})),
-        Ok(Err(e)) => {
-            emit(json!({"ev": "set_position", "res": "err", "msg": format!("{e:#}")}));
-            return Ok(());
-        }
-        Err(p) => {
-            emit(json!({"ev": "set_position", "res": "panic", "msg": panic_msg(&p)}));
-            return Ok(());
+    // like the parallel sampler, a failed initialisation may be retried on the same chain object
+    let retries = if sc["retry_init"] == true { 3 } else { 0 };
+    let mut attempt = 0;
+    loop {
+        let r = std::panic::catch_unwind(std::panic::AssertUnwindSafe(|| chain.set_position(&init)));
+        match r {
+            Ok(Ok(())) => {
+                emit(json!({"ev": "set_position", "res": "ok"}));
+                break;
+            }
+            Ok(Err(e)) => {
+                emit(json!({"ev": "set_position", "res": "err", "msg": format!("{e:#}")}));
+                if attempt >= retries {
+                    return Ok(());
+                }
+                attempt += 1;
+            }
+            Err(p) => {
+                emit(json!({"ev": "set_position", "res": "panic", "msg": panic_msg(&p)}));
+                return Ok(());
+            }
         }
     }
     let total = sc["draws"]
